@@ -175,6 +175,7 @@ def run(idx: ProgramIndex, rep: Report, tier: str):
     rep.rule("C05-5", "k1 + k2 / k1 * k2 flatten an operand's members into the new composite only when the operand is a composite of the same kind")
     rep.rule("C05-4", "no in-place aliasing hazard in kernel forward code and the distance helpers (storage/version domain)")
     rep.rule("C05-3", "LCMKernel = sum over all member multitask kernels")
+    piecewise_polynomial(idx, rep)
     K = "gpytorch.kernels.kernel"
     for cname, op, opname in (("AdditiveKernel", ast.Add, "+"), ("ProductKernel", ast.Mult, "*")):
         C = idx.cls(K, cname)
@@ -298,3 +299,86 @@ def run(idx: ProgramIndex, rep: Report, tier: str):
             if nm in c.methods:
                 funcs.append(c.methods[nm])
     aliasing_obligations(idx, rep, "C05-4", funcs, 35, "kernel forward methods interpreted")
+
+
+# ---- C05-7 ---------------------------------------------------------------------------------------------------------
+def piecewise_polynomial(idx: ProgramIndex, rep: Report):
+    """The piecewise-polynomial covariance functions are finite polynomials with integer-polynomial coefficients in j = floor(D/2)+q+1
+    (Rasmussen & Williams, eq. 4.21; the class docstring quotes them).  `_get_cov(r, j, q)` is evaluated branch by branch into a
+    polynomial in (j, r) with rational coefficients and compared with the reference polynomial of that q - an identity of polynomials,
+    not a comparison of values."""
+    from fractions import Fraction
+    from ..domains.symshape import Poly
+    rep.rule("C05-7", "PiecewisePolynomialKernel: the polynomial factor of every q equals the reference polynomial in (j, r) (Rasmussen & Williams eq. 4.21), as polynomials")
+    J, R = Poly.sym("j"), Poly.sym("r")
+
+    def P(c):
+        return Poly.const(Fraction(c))
+    REF = {
+        0: P(1),
+        1: (J + P(1)) * R + P(1),
+        2: ((J * J + P(4) * J + P(3)) * R * R + (P(3) * J + P(6)) * R + P(3)).scale(Fraction(1, 3)),
+        3: ((J * J * J + P(9) * J * J + P(23) * J + P(15)) * R * R * R + (P(6) * J * J + P(36) * J + P(45)) * R * R + (P(15) * J + P(45)) * R + P(15)).scale(Fraction(1, 15)),
+    }
+    try:
+        fi = idx.function(idx.package + ".kernels.piecewise_polynomial_kernel", "_get_cov")
+    except AnalysisError:
+        raise AnalysisError("C05-7: _get_cov not found (anchor vanished)")
+    rn, jn, qn = fi.params[0], fi.params[1], fi.params[2]
+
+    def ev(e):
+        if isinstance(e, ast.Constant) and isinstance(e.value, (int, float)) and not isinstance(e.value, bool):
+            return P(Fraction(e.value).limit_denominator(10**6))
+        if isinstance(e, ast.Name):
+            return J if e.id == jn else (R if e.id == rn else None)
+        if isinstance(e, ast.UnaryOp) and isinstance(e.op, ast.USub):
+            v = ev(e.operand)
+            return None if v is None else v.scale(Fraction(-1))
+        if isinstance(e, ast.BinOp):
+            a, b = ev(e.left), ev(e.right)
+            if a is None or b is None:
+                return None
+            if isinstance(e.op, ast.Add):
+                return a + b
+            if isinstance(e.op, ast.Sub):
+                return a - b
+            if isinstance(e.op, ast.Mult):
+                return a * b
+            if isinstance(e.op, ast.Div) and b.is_const() and b.terms:
+                return a.scale(1 / Fraction(b.terms[()]))
+            if isinstance(e.op, ast.Pow) and b.is_const() and b.terms and Fraction(b.terms[()]).denominator == 1 and 0 <= int(b.terms[()]) <= 6:
+                out = P(1)
+                for _ in range(int(b.terms[()])):
+                    out = out * a
+                return out
+            return None
+        if isinstance(e, ast.Call) and isinstance(e.func, ast.Attribute) and e.func.attr in ("square",) and not e.args:
+            v = ev(e.func.value)
+            return None if v is None else v * v
+        if isinstance(e, ast.Call) and isinstance(e.func, ast.Attribute) and e.func.attr == "pow" and len(e.args) == 1:
+            return ev(ast.BinOp(left=e.func.value, op=ast.Pow(), right=e.args[0]))
+        return None
+
+    n = 0
+    found = {}
+    for st in ast.walk(fi.node):
+        if isinstance(st, ast.If) and isinstance(st.test, ast.Compare) and isinstance(st.test.left, ast.Name) and st.test.left.id == qn and len(st.test.ops) == 1 and isinstance(st.test.ops[0], ast.Eq) \
+           and isinstance(st.test.comparators[0], ast.Constant):
+            q = st.test.comparators[0].value
+            rets = [r.value for b_ in st.body for r in ast.walk(b_) if isinstance(r, ast.Return) and r.value is not None]
+            if len(rets) == 1:
+                found[q] = rets[0]
+    for q in sorted(REF):
+        n += 1
+        if q not in found:
+            rep.add("C05-7", "%s:_get_cov[q=%d]" % (fi.module.name, q), fi.where, False, "no `if q == %d: return ...` branch found" % q, {})
+            continue
+        v = ev(found[q])
+        if v is None:
+            rep.add("C05-7", "%s:_get_cov[q=%d]" % (fi.module.name, q), "%s:%d" % (fi.module.relpath, found[q].lineno), False, "`%s` is not a polynomial in (j, r) that the evaluator understands" % " ".join(src(found[q]).split())[:70], {})
+            continue
+        ok = v == REF[q]
+        diff = (v - REF[q]).show() if not ok else ""
+        rep.add("C05-7", "%s:_get_cov[q=%d]" % (fi.module.name, q), "%s:%d" % (fi.module.relpath, found[q].lineno), ok,
+                "equals the reference polynomial" if ok else "the code's polynomial minus the reference (R&W 4.21) is %s, not 0: the kernel is not the documented covariance function" % diff[:120], {})
+    rep.floor("C05-7", "piecewise polynomial orders", n, 4)
